@@ -188,10 +188,17 @@ class ResourceCost(IndBase):
     bounded = "1..3 tasks on the resource; cost coefficients and all integers symbolic"
 
     def extra_cases(self, tier):
-        return [{"cost": c} for c in ("const", "const0", "const1", "linear", "poly2")]
+        return [{"cost": c, "res": "worker"} for c in ("const", "const0", "const1", "linear", "poly2")] + [{"cost": "const", "res": "cumulative"}]
+
+    def cases(self, tier):
+        return [c for c in super().cases(tier) if not (c["res"] == "cumulative" and len(c["ts"]) > 2)]
 
     def make_worker(self, ps, P, case):
         c = case["cost"]
+        if case["res"] == "cumulative":
+            # the cost per period of a cumulative worker is split over its unit workers
+            P.assume(P.int("c0") >= 0)
+            return ps.CumulativeWorker(name="w", size=2, cost=ps.ConstantFunction(value=P.int("c0")))
         if c == "const":
             f = ps.ConstantFunction(value=P.int("c0"))
         elif c == "const0":
@@ -205,6 +212,9 @@ class ResourceCost(IndBase):
         return ps.Worker(name="w", cost=f)
 
     def build(self, ps, P, case, pb, w, tasks):
+        if case["cost"] == "linear":
+            # through the objective that creates the indicator
+            return ps.ObjectiveMinimizeResourceCost(list_of_resources=[w]).target
         return ps.IndicatorResourceCost(list_of_resources=[w])
 
     def cost_at(self, P, case, x):
@@ -221,6 +231,16 @@ class ResourceCost(IndBase):
 
     def definition(self, P, ctx, case):
         H = self.held(ctx)
+        if case["res"] == "cumulative":
+            # each unit worker costs its share per busy period; the shares add up to the declared cost
+            units = list(ctx["w"]._cumulative_workers)
+            tot = []
+            for t in ctx["tasks"]:
+                for u in units:
+                    bs, be = busy(u, t)
+                    tot.append(If(And(spec.sched(t), bs >= 0), T(u.cost.value) * (be - bs), 0))
+            shares = z3.Sum([T(u.cost.value) for u in units]) == T(P.int("c0"))
+            return lambda v: And(shares, v == z3.Sum(tot))
         if case["cost"].startswith("const"):
             return z3.Sum([If(c, self.cost_at(P, case, bs) * (be - bs), 0) for t, c, bs, be in H])
         twice = z3.Sum([If(c, (self.cost_at(P, case, bs) + self.cost_at(P, case, be)) * (be - bs), 0) for t, c, bs, be in H])
@@ -431,7 +451,7 @@ class MathExpressionAndConstraints(Contract):
 
     target = "indicator.IndicatorFromMathExpression.__init__"
     inlines = ("indicator_constraint.IndicatorTarget.__init__", "indicator_constraint.IndicatorBounds.__init__")
-    props = ("C08",)
+    props = ("C08", "C05")
 
     def cases(self, tier):
         return [dict(c=c) for c in ("none", "target", "lower", "upper", "both")]
@@ -467,7 +487,16 @@ class MathExpressionAndConstraints(Contract):
             goal.append(v >= T(P.int("lo")))
         if case["c"] in ("upper", "both"):
             goal.append(v <= T(P.int("hi")))
-        return [Clause("equals[user expression; targets and bounds hold]", And(*goal), hyps=A, props=("C08",), kind="equals")]
+        out = [Clause("equals[user expression; targets and bounds hold]", And(*goal), hyps=A, props=("C08",), kind="equals")]
+        # completeness: every schedule whose indicator value meets the declared target / bounds is admitted
+        from contracts.task_constraint import valid_placement
+
+        pb = ctx["pb"]
+        hz, H = pb._horizon, pb.horizon
+        tasks = list(pb.tasks.values())
+        valid = [valid_placement(t, i + 1, hz, H) for i, t in enumerate(tasks)] + [hz >= 0, hz <= T(H)]
+        out.append(Clause("complete[a schedule meeting the target / bounds is admitted]", And(*A), hyps=valid + goal, props=("C05", "C08"), kind="complete"))
+        return out
 
     def sentinels(self, P, ctx, case):
         return [Clause("sentinel[false]", z3.BoolVal(False), hyps=asserted(ctx["solver"]), props=("C08",), kind="sound")]
@@ -497,7 +526,7 @@ class BufferLevelExtrema(Contract):
             P.assume(P.int(f"q{i+1}") >= 1)
             (ps.TaskUnloadBuffer if a == "U" else ps.TaskLoadBuffer)(task=t, buffer=b, quantity=P.int(f"q{i+1}"))
         if case["via"] == "objective":
-            obj = ps.ObjectiveMaximizeMaxBufferLevel(buffer=b)
+            obj = (ps.ObjectiveMaximizeMaxBufferLevel if case["kind"] == "nc" else ps.ObjectiveMinimizeMaxBufferLevel)(buffer=b)
             ind = obj.target
         else:
             ind = ps.IndicatorMaxBufferLevel(buffer=b) if case["which"] == "max" else ps.IndicatorMinBufferLevel(buffer=b)
